@@ -1,4 +1,14 @@
-"""C07: dictionary codec — exact bytes back or refusal, frequent strings cost one byte."""
+"""C07: dictionary codec — exact bytes back or refusal, frequent strings cost one byte.
+
+The heavy-hitter summary's tuning constant (the literal N of `Vec::with_capacity(N)` in `impl<T> Default for
+MisraGries<T>`) is not fixed by the property: tools/gen_facts.py re-extracts it on every run (before the generators
+execute: `vlib.regenerate()` is the first step of `check`) into lean/FlatModel/Generated/SourceFacts.lean (`mgCapacity`,
+the model's `MG.cap`) and work/source_facts.json, from where `capacity()` reads it. The regimes that depend on it
+(`crowded`, `compacting`, `script(big=True)`) use K = cap/2 + 1 in the proved inequality and scale their sizes with cap
+so that they keep crossing the compaction threshold."""
+import json
+import os
+import re
 from fcat import Rng, parse, shape
 from props.regcommon import RB, entries, catalogue
 from vlib import flatten_idx
@@ -11,16 +21,62 @@ THEOREMS = [("FlatModel.Props.C07", t) for t in (
     "FC.C07.heavy_hitters_one_byte_partial", "FC.C07.heavy_hitters_all_tagged", "FC.C07.all_sources_tagged",
     "FC.C07.all_pushed_tagged")]
 THEOREMS += [("FlatModel.Props.C07MG", "FC.C07." + t) for t in (
+    "cap_is_source_fact", "tidy_generic", "update_generic", "run_generic", "summary_never_full", "compaction_keeps_some",
     "est_le_trueCount", "trueCount_le_est_add_D", "accounting", "weight_le_total", "mg_error_bound", "mg_error_bound_pos", "heavy_survives", "heavy_survives_pos", "mg_invariant_generic", "mg_error_bound_generic", "classical_bound_fails", "done_spec", "mergedMG_of_histories", "merged_estimate", "dominant_in_summary", "push_hit_one_byte", "ranked_heavy_hitter_one_byte", "dominant_strings_tagged")]
+# the one place where the value of the regenerated constant is looked at (`by decide`): capacity 0 / 1 / not recognised fail here
+THEOREMS += [("FlatModel.Proofs.MGCap", "FC.Codec." + t) for t in ("MG.two_le_cap", "run_length_lt_cap")]
 PROFILES = {"quick": ["checked"], "thorough": ["checked", "wrapping"], "search": ["checked"]}
-RULE = ("source regions filled from small vocabularies (1..9 strings over 1..4 first bytes, the empty string, skewed counts), "
-        "merge_regions over 1..3 sources, pushes of vocabulary words / random strings / single low bytes / extensions / prefixes, "
-        "every push read back, up to three generations and clear; a scarce-tag regime (ties decided by byte order); a crowded regime (more "
-        "distinct strings than free tags, one dominating by the proved inequality 513*N < (F+1)*(513*C-2*N): must cost one byte); "
-        "a compacting regime (3..5 sources with disjoint vocabularies, counts 1..6, > 1024 weighted updates: the summary's tidy "
-        "runs inside new_from; dictionary compared index by index with the model); plus >1024 distinct strings per source in the thorough tier; "
-        "non-trivial when the target region has a non-empty dictionary; distinct by operation and value shapes")
-ASSUMPTIONS = ["Vec::with_capacity(1024).capacity() == 1024 (std): the summary compacts at exactly 1024 entries"]
+
+_ROOT = os.path.dirname(os.path.dirname(os.path.dirname(os.path.abspath(__file__))))
+DEFAULT_CAP = 1024      # used by the generator only when the extractor did not recognise the source (the Lean build fails then)
+MAX_SCALED_CAP = 1 << 14  # beyond this the compaction regimes are not scaled any further (scripts of > 10^5 lines)
+
+
+def capacity():
+    """the capacity literal of `MisraGries::default()` as extracted by tools/gen_facts.py on this run (None: not recognised)"""
+    v = None
+    try:
+        v = json.load(open(os.path.join(_ROOT, "work", "source_facts.json"))).get("mg_capacity")
+    except (OSError, ValueError):
+        try:
+            m = re.search(r"^def mgCapacity : Nat := (\d+)\s*$", open(os.path.join(
+                _ROOT, "lean", "FlatModel", "Generated", "SourceFacts.lean")).read(), flags=re.M)
+            v = int(m.group(1)) if m else None
+        except OSError:
+            v = None
+    return v if isinstance(v, int) and v >= 2 else None
+
+
+def _cap():
+    return capacity() or DEFAULT_CAP
+
+
+def _sz(x, cap):
+    """a size chosen for capacity 1024, scaled to the capacity in force (identity at 1024)"""
+    return max(1, x * min(cap, MAX_SCALED_CAP) // 1024)
+
+
+def _texts(cap, recognised=True):
+    K = cap // 2 + 1
+    rule = ("source regions filled from small vocabularies (1..9 strings over 1..4 first bytes, the empty string, skewed counts), "
+            "merge_regions over 1..3 sources, pushes of vocabulary words / random strings / single low bytes / extensions / prefixes, "
+            "every push read back, up to three generations and clear; a scarce-tag regime (ties decided by byte order); a crowded regime (more "
+            "distinct strings than free tags, one dominating by the proved inequality K*N < (F+1)*(K*C-2*N), K = cap/2+1 = %d: must cost one byte); "
+            "a compacting regime (3..5 sources with disjoint vocabularies of %d..%d strings, counts 1..6, > cap = %d weighted updates: the summary's tidy "
+            "runs inside new_from; dictionary compared index by index with the model); plus %d..%d insertions (> cap) over a vocabulary of %d strings per source in the thorough tier; "
+            "cap = %d is the summary's capacity literal re-extracted from the crate's source on this run (gen_facts: mgCapacity%s), the sizes scale with it; "
+            "non-trivial when the target region has a non-empty dictionary; distinct by operation and value shapes" % (
+                K, _sz(280, cap), _sz(280, cap) + _sz(120, cap) - 1, cap, _sz(1100, cap), _sz(1100, cap) + _sz(400, cap) - 1, _sz(1500, cap), cap,
+                "" if recognised else "; NOT RECOGNISED in the source, the generator fell back to 1024 and the Lean build rejects the fact"))
+    if cap > MAX_SCALED_CAP:
+        rule += "; cap exceeds %d: the compaction regimes are generated for %d and do not reach the threshold" % (MAX_SCALED_CAP, MAX_SCALED_CAP)
+    assumptions = ["Vec::with_capacity(%d).capacity() == %d (std; %d is the literal in `impl<T> Default for MisraGries<T>`, re-extracted on "
+                   "every run): the summary compacts at exactly %d entries, and never reallocates (FC.Codec.run_length_lt_cap)" % (cap, cap, cap, cap)]
+    return rule, assumptions
+
+
+# refreshed by generate(): `check` imports this module before it regenerates the source facts and reads RULE afterwards
+RULE, ASSUMPTIONS = _texts(_cap(), capacity() is not None)
 
 ENTRIES = ["codec", "string(codec)", "consec(codec,opt)"]
 
@@ -49,6 +105,7 @@ def word(rng, firsts, utf8):
 
 
 def script(rng, cat, big=False):
+    cap = _cap()
     b = RB(ID, cat, rng)
     utf8 = cat["shape"] == ("bytes", True)
     firsts_all = [97, 98, 99, 100, 48] if utf8 else [0, 1, 2, 3, 97, 128, 255]
@@ -72,9 +129,10 @@ def script(rng, cat, big=False):
                     continue
             else:
                 b.new(name)
-                n = 1 + rng.below(12) if not big else 1100 + rng.below(400)
+                # big: more than cap insertions per source (the summary compacts while the source is filled)
+                n = 1 + rng.below(12) if not big else _sz(1100, cap) + rng.below(_sz(400, cap))
                 for i in range(n):
-                    w = rng.pick(vocab) if (not big or rng.below(4) == 0) else ("w%d" % rng.below(1500)).encode()
+                    w = rng.pick(vocab) if (not big or rng.below(4) == 0) else ("w%d" % rng.below(_sz(1500, cap))).encode()
                     expect = "idx"
                     k2, _ = b.push(name, w, b.form_for(w), expect=expect, sig="codec-default-push" if w else "codec-empty-string", cmp="idx" if not big else "status")
                     if rng.below(3) == 0 and not big:
@@ -90,7 +148,8 @@ def script(rng, cat, big=False):
         b.merge(t, srcs)
         distinct = len(counts)
         free = 256 - len(seen_first)
-        small = distinct <= min(free, 200) and not big and all(not getattr(b.h[n], "merged", False) or True for n in srcs)
+        # `all_pushed_tagged`: fewer than cap insertions in all, no more heavy hitters than free tags
+        small = distinct <= min(free, 200) and not big and sum(len(b.h[n].vals) for n in srcs) < cap
         b.h[t].merged = True
         if distinct:
             b.s.nontrivial = True
@@ -164,9 +223,11 @@ def scarce(rng, cat):
 
 def crowded(rng, cat):
     """more distinct strings than free tags, one of them dominating: by `FC.C07.dominant_strings_tagged` a string with C
-    occurrences among N non-empty pushes into fresh sources gets a tag whenever 513*N < (F+1)*(513*C - 2*N), F the number
-    of byte values never seen as a first byte — however the many strings of count one are ordered. The hot string sorts
-    after all others, so it is the first to lose its tag if counts are not what decides."""
+    occurrences among N non-empty pushes into fresh sources gets a tag whenever K*N < (F+1)*(K*C - 2*N), K = cap/2 + 1
+    (cap the summary's capacity, `capacity()`; 513 for 1024), F the number of byte values never seen as a first byte —
+    however the many strings of count one are ordered. The hot string sorts after all others, so it is the first to lose
+    its tag if counts are not what decides."""
+    K = _cap() // 2 + 1
     b = RB(ID, cat, rng)
     firsts = [97, 98, 99][: 1 + rng.below(3)]
     ncold = 256 + rng.below(120)
@@ -175,7 +236,7 @@ def crowded(rng, cat):
     nsrc = 1 + rng.below(3)
     free = 256 - len(firsts)
     c = 1
-    while not 513 * (ncold + c) < (free + 1) * (513 * c - 2 * (ncold + c)):
+    while not K * (ncold + c) < (free + 1) * (K * c - 2 * (ncold + c)):
         c += 1
     c += rng.below(4)
     srcs = ["s%d" % k for k in range(nsrc)]
@@ -200,11 +261,13 @@ def crowded(rng, cat):
 
 
 def compacting(rng, cat):
-    """the heavy-hitter summary compacts (`tidy`): in the sources (more than 1024 insertions) and, with weights, while
-    `new_from` folds 3..5 sources with disjoint vocabularies into one summary (more than 1024 weighted updates, more than
-    512 distinct strings, counts 1..6). Which strings survive with which reduced count decides who gets the tags — compared
-    with the model index by index; the dominating string must still cost one byte (`dominant_strings_tagged` holds for
-    histories of any size)."""
+    """the heavy-hitter summary compacts (`tidy`): in the sources (more than cap insertions) and, with weights, while
+    `new_from` folds 3..5 sources with disjoint vocabularies into one summary (more than cap weighted updates, more than
+    cap/2 distinct strings, counts 1..6; cap = `capacity()`, the sizes below are those chosen for 1024, scaled). Which
+    strings survive with which reduced count decides who gets the tags — compared with the model index by index; the
+    dominating string must still cost one byte (`dominant_strings_tagged` holds for histories of any size)."""
+    cap = _cap()
+    K = cap // 2 + 1
     b = RB(ID, cat, rng)
     firsts = [97, 98, 99, 100][: 1 + rng.below(4)]
     nsrc = 3 + rng.below(3)
@@ -215,7 +278,7 @@ def compacting(rng, cat):
     cold = []
     for k, n in enumerate(srcs):
         b.new(n)
-        words = [bytes([firsts[(i + k) % len(firsts)]]) + b"%d_%03d" % (k, i) for i in range(280 + rng.below(120))]
+        words = [bytes([firsts[(i + k) % len(firsts)]]) + b"%d_%03d" % (k, i) for i in range(_sz(280, cap) + rng.below(_sz(120, cap)))]
         cold += words
         plan = []
         for w in words:
@@ -223,7 +286,7 @@ def compacting(rng, cat):
         plans.append(plan)
     total = sum(len(p) for p in plans)
     c = 1
-    while not 513 * (total + c) < (free + 1) * (513 * c - 2 * (total + c)):
+    while not K * (total + c) < (free + 1) * (K * c - 2 * (total + c)):
         c += 1
     c += rng.below(5)
     for _ in range(c):
@@ -245,6 +308,8 @@ def compacting(rng, cat):
 
 
 def generate(seed, tier):
+    global RULE, ASSUMPTIONS
+    RULE, ASSUMPTIONS = _texts(_cap(), capacity() is not None)
     rng = Rng(seed * 13 + 7)
     n = {"quick": 250, "thorough": 3000, "search": 800}[tier]
     cats = [c for c in catalogue() if c["entry"] in ENTRIES]
